@@ -73,8 +73,31 @@ func runC03(c *vkit.Ctx, i int, h *History) {
 			mode = []vkit.Mode{{}, {}, {CI: true}, {UpdateVar: "true"}, {UpdateVar: "clean"}}[r.IntN(5)]
 		}
 		var mutate func(tp *TestPlan, idx int, op *Op)
+		// write faults (every 5th history): during some calls the disk is full - writes beyond a
+		// few bytes (mostly: beyond 0) fail with EFBIG while directories, opens, truncations
+		// and closes still work. A call whose write failed must say so (then the model takes
+		// over what it left on disk); whatever it says, every LATER call, on this file or
+		// another one, is judged as always.
+		faults := i%5 == 2
+		fault := func(tp *TestPlan, idx int, op *Op) {
+			fr := mutRand(c.P.Seed+int64(i), 100+run, tp.Name, idx)
+			if fr.IntN(5) != 0 {
+				return
+			}
+			op.Fault = true
+			if fr.IntN(3) == 0 {
+				op.FaultAt = int64(1 + fr.IntN(300))
+			}
+		}
+		if faults {
+			h.Classes["write-faults"] = true
+			mutate = fault
+		}
 		if run > 1 {
 			mutate = func(tp *TestPlan, idx int, op *Op) {
+				if faults {
+					fault(tp, idx, op)
+				}
 				mr := mutRand(c.P.Seed+int64(i), run, tp.Name, idx)
 				if op.Fail != "" || mr.IntN(3) != 0 {
 					return
@@ -97,6 +120,12 @@ func runC03(c *vkit.Ctx, i int, h *History) {
 			c.Count("outcome_"+res.Got, 1)
 			if res.Expected == vkit.Added || res.Expected == vkit.Updated {
 				c.Count("reader_comparisons", 1)
+			}
+			if o.Fault {
+				c.Count("calls_made_while_writes_fail", 1)
+			}
+			if res.Faulted != "" {
+				c.Count("failed_writes_reported:"+o.API+":"+res.Faulted, 1)
 			}
 			if len(res.Problems) == 0 {
 				return true
